@@ -6,6 +6,7 @@ import logging
 import numbers
 import operator
 import os
+import re
 import signal
 import sys
 import threading
@@ -257,6 +258,17 @@ def condom(f):
 def _z3_decl_name_str(ctx, decl):
     decl_name = z3.Z3_get_decl_name(ctx, decl)
     return z3.Z3_get_symbol_string_bytes(ctx, decl_name)
+
+
+_Z3_STRING_ESCAPE = re.compile(r"\\u\{([0-9a-fA-F]+)\}")
+
+
+def _z3_string_value(seq):
+    """
+    The characters of a Z3 string constant. as_string() renders non-printable and non-ASCII characters (and a
+    backslash that would otherwise start an escape) as \\u{...} escape sequences; undo that.
+    """
+    return _Z3_STRING_ESCAPE.sub(lambda m: chr(int(m.group(1), 16)), seq.as_string())
 
 
 def z3_solver_sat(solver, extra_constraints, occasion):
@@ -584,7 +596,7 @@ class BackendZ3(Backend):
         if op_name.startswith("RM_"):
             return RM(op_name)
         if op_name == "INTERNAL":
-            return claripy.StringV(z3.SeqRef(ast).as_string())
+            return claripy.StringV(_z3_string_value(z3.SeqRef(ast)))
         if op_name == "BitVecVal":
             bv_size = z3.Z3_get_bv_sort_size(ctx, z3_sort)
             if z3.Z3_get_numeral_uint64(ctx, ast, self._c_uint64_p):
@@ -741,7 +753,7 @@ class BackendZ3(Backend):
         if op_name == "INTERNAL":
             seq = z3.SeqRef(ast)
             if seq.is_string():
-                return seq.as_string()
+                return _z3_string_value(seq)
         raise BackendError("Unable to abstract Z3 object to primitive")
 
     def _abstract_bv_val(self, ctx, ast):
